@@ -75,7 +75,7 @@ Definition v128_left_shift (ws : list N) (shift : N) : list N :=
   else shift_words ws shift.
 
 (* x->word[i] = v *)
-Fixpoint upd (i : nat) (v : N) (ws : list N) : list N :=
+Fixpoint upd (i : nat) (v : N) (ws : list N) {struct ws} : list N :=
   match ws, i with
   | [], _ => []
   | _ :: r, O => v :: r
